@@ -488,7 +488,17 @@ fn exec_inner(ctx: &Arc<Ctx>, op: &OpSpec, slots: &mut Slots) -> i64 {
 
         "block_on" => { ctx.block_thread_on(op.g); 0 }
 
-        "set_max" => { scheduler().verif_set_max_threads(op.n); ctx.sched.obs("setmax", op.n as i64, 0); 0 }
+        "set_max" => {
+            if op.then == "real" {
+                // the real call: counted from the call for the monitors (it goes on to wake and spawn threads under the new maximum)
+                ctx.sched.obs("setmax", op.n as i64, 0);
+                scheduler().set_max_threads(op.n);
+            } else {
+                scheduler().verif_set_max_threads(op.n);
+                ctx.sched.obs("setmax", op.n as i64, 0);
+            }
+            0
+        }
         "despawn" => { scheduler().despawn_threads_if_overloaded(); 0 }
         "nop"     => 0,
 
